@@ -685,14 +685,25 @@ func c13(c *core.Ctx) {
 	// ---------------------------------------------------------------- R4
 	if c.Rule("R4", "of several per-RPC-credentials options the LAST one counts (gRPC's rule: a stub's default options come first in the list, the call's own after them): the credentials field of the collected call options is assigned inside the loop over the whole option list, which is not left once a match is found", 1) {
 		n := 0
-		for _, fn := range p.LibFuncs("internal") {
-			if fn.Parent() != nil || len(fn.Params) != 1 || !strings.HasSuffix(core.TypeStr(fn.Params[0].Type()), "grpc.CallOption") {
-				continue
+		isReader := func(fn *ssa.Function) bool {
+			if fn == nil || fn.Parent() != nil || len(fn.Params) != 1 || !strings.HasSuffix(core.TypeStr(fn.Params[0].Type()), "grpc.CallOption") {
+				return false
 			}
-			if _, isSl := fn.Params[0].Type().Underlying().(*types.Slice); !isSl {
-				continue
+			_, isSl := fn.Params[0].Type().Underlying().(*types.Slice)
+			return isSl
+		}
+		for _, host := range p.LibFuncs("internal") {
+			fn := host
+			// the per-option decisions may sit in a step function that the reader calls for each option
+			var stepSite ssa.Instruction
+			if !isReader(fn) {
+				site := core.InlineSite[host]
+				if site == nil || !isReader(site.Parent()) {
+					continue
+				}
+				fn, stepSite = site.Parent(), site
 			}
-			core.Instrs(fn, func(in ssa.Instruction) {
+			core.Instrs(host, func(in ssa.Instruction) {
 				st, ok := in.(*ssa.Store)
 				if !ok {
 					return
@@ -735,6 +746,11 @@ func c13(c *core.Ctx) {
 					return true, ""
 				}
 				isRet := func(x ssa.Instruction) bool { _, r := x.(*ssa.Return); return r }
+				if stepSite != nil {
+					ok, why := lastWins(fn, stepSite, isRet)
+					c.Check(ok, key, st.Pos(), "assigned by a step function run for every option of the whole list", why)
+					return
+				}
 				if core.LoopOf(fn)[st.Block()] >= 0 {
 					ok, why := lastWins(fn, st, isRet)
 					c.Check(ok, key, st.Pos(), "assigned on every match inside the loop over the whole option list", why)
